@@ -310,3 +310,55 @@ def run(m):
     bad = run_templates(vals, limit=1)
     return {"failing": bool(bad), "witness": bad[0]["witness"] if bad else "only-liquid-errors", "call": bad[0]["source"] if bad else "filter x hostile value sweep", "result": bad[0]["got"] if bad else "ok"}
 '''
+
+# ---- RenderContext.get / get_async with the int -> str digit limit modelled: building the
+# ---- "x.y is undefined" hint from *evaluated* path segments must not let ValueError out
+# ---- (path segments come from the render data: `{{ [b] }}`, `{{ a[b] }}` with a huge int b)
+
+_CTX = "liquid.context:RenderContext"
+
+REPLAY_GET_HUGE = r'''
+def run(m):
+    import asyncio
+    from liquid import Environment
+    from liquid.exceptions import LiquidError
+    bad = []
+    for src in ("{{ [b] }}", "{{ [b].x }}", "{{ a[b] }}", "{{ a[b].c }}", "{% if [b] %}1{% endif %}"):
+        for b in (10**5000, -10**5000):
+            t = Environment().from_string(src)
+            for f in (lambda: t.render(a={"k": 1}, b=b), lambda: asyncio.run(t.render_async(a={"k": 1}, b=b))):
+                try:
+                    f()
+                except LiquidError:
+                    pass
+                except BaseException as ex:
+                    bad.append((src, type(ex).__name__))
+    return {"violated": bool(bad), "observed": bad[:4], "witness": "undefined-hint-of-a-huge-int-segment"}
+'''
+
+for _sfx in ("", "_async"):
+    for _n in (1, 2, 3):
+        def _mkget(sfx, n):
+            @contract(_CTX + ".get" + sfx, prop="C02", name=f"get{sfx}[path-length-{n}: no ValueError from the int->str digit limit while describing a missing path]")
+            def g(c):
+                c.model_int_str_limit()
+                env = mk_env(c, undefined=VClass("liquid.undefined", "Undefined"))
+                ctx = mk_ctx(c, env)
+                root = c.any("root")
+                segs = [c.any(f"segment{i}") for i in range(1, n)]
+                path = c.st.alloc(HList(items=[root, *segs]))
+
+                def item(eng, st, a, k):
+                    outs = [(st.fork(), VU(z3.Const(f"item_{len(st.log)}", U)))]
+                    for cls in ("KeyError", "IndexError", "TypeError"):
+                        outs.append((st.fork(), Raised(VExc(cls, (const(cls),)))))
+                    st.log.append(("get_item",))
+                    return outs
+
+                c.summary(_CTX + ".get_item" + sfx, item)
+                c.call(path, self_val=ctx, token=NONE)
+                c.raises("LiquidError")
+                c.ensures("completes-with-a-value", lambda r: z3.BoolVal(True))
+                c.assume_note("get_item raises only the lookup errors of its own contract (C16); path segments are arbitrary values of the render data")
+                c.replay("code", code=REPLAY_GET_HUGE)
+        _mkget(_sfx, _n)
